@@ -539,3 +539,12 @@ PROPS['C16'] = dict(
     assumptions=['TLC; ShellLex.tla Lex: reference tokenizer written by quoting modes from the POSIX rules; Table: the 7x6 table of shell.go as data',
                  'input ending inside a quote or after a backslash yields the partial (possibly empty) word with complete = FALSE; $ and ` are ordinary bytes for Split (outside the six classes)',
                  'exhaustive over all strings up to the length bound over six class representatives, every byte value in four contexts; seeded random and >4096-byte inputs beyond'])
+
+# --------------------------------------------------------------------------
+# C17 slice utilities
+PROPS['C17'] = dict(
+    mc=[dict(module='SliceOpsMC', cfg=('SliceOpsMC_q.cfg', 'SliceOpsMC_t.cfg'), emit=True, workers=8)],
+    trace=dict(module='SliceOpsTrace', cfg='SliceOpsTrace.cfg', stack='256m'),
+    assumptions=['TLC; SliceOps.tla as transcription of the documentation and of the property ("capacity-clipped" = cap equals len)',
+                 'exhaustive over the TLC-enumerated argument space (all lengths up to the bound, all k/n in and around the valid range, all keep patterns up to 6 elements, spare capacity 0 and 3); seeded random beyond',
+                 'aliasing offsets and capacities are read with unsafe pointer arithmetic by the driver'])
